@@ -4,6 +4,8 @@ manifest stays valid and in step with the checks that exist)."""
 import json, os
 VERIF = os.path.dirname(os.path.dirname(os.path.abspath(__file__)))
 
+TS_NOTE = ('Trusted base: z3 5.1 (QF_BV); the extraction (symrun) and its stub primitives with the blocking semantics listed in the evidence; the Lipton-reduction / partial-order-reduction arguments; replay harness. Bounded: listed graphs (<= 3 tasks), <= 2-3 workers, depth K (quick: first K steps of every run; thorough: K established by the unwinding query).')
+
 SYM_NOTE = ('Trusted base: z3 5.1; the symrun proxies (extended-real algebra: exact reals + IEEE special values, '
             'no rounding); numpy for shape bookkeeping; stubs and assumptions listed in the evidence file. '
             'Bounded: only the shapes/sizes/lengths listed under coverage.bounds are covered.')
@@ -51,6 +53,29 @@ CHECKS = {
                   '(equality/order only), every ordered label selection: each task/result counted once under its status/verdict, MISSING tasks, '
                   'OK+KO=total=results carrying the labels, nb_missing_labels, oracles and verdicts are decided on every path.',
              design='DESIGN.md section 4 C18'),
+ 'C01': dict(engine='threadsym', category='model_checking', note=TS_NOTE,
+             technique='per-thread automata extracted from the real scheduler code by symbolic execution between synchronisation points; z3 bounded model checking (QF_BV) with the interleaving, task outcomes and clock instants as solver variables; counterexamples replayed on real threads',
+             text='For each listed graph/worker count, ONE z3 query over ALL interleavings (schedule = solver variables), all 7 task outcome kinds and all '
+                  'clock readings decides that no task starts before every dependency is final and its update is readable. The automata are regenerated '
+                  'from /repo on every run; a counterexample is a concrete schedule that is replayed on the real code with real threads.',
+             design='DESIGN.md sections 2.2, 4 C01'),
+ 'C02': dict(engine='threadsym', category='model_checking', note=TS_NOTE,
+             technique='extracted thread automata + z3 bounded model checking over all interleavings (QF_BV); final status map compared with a recursive specification F(graph, outcomes); replay on real threads',
+             text='For each listed graph/worker count one query per clause over all interleavings and outcome kinds: no task executed twice; at '
+                  'termination the status map equals F(graph, outcomes) (hence is schedule independent), skipped tasks never executed.',
+             design='DESIGN.md sections 2.2, 4 C02'),
+ 'C03': dict(engine='threadsym', category='model_checking', note=TS_NOTE,
+             technique='extracted thread automata + z3 bounded model checking over all interleavings (QF_BV) from a solver-chosen initial environment; deadlock / lost wake-up / leaked worker as a quiescence predicate; unwinding query bounds every run (thorough); replay on real threads',
+             text='For each listed graph (cyclic ones included), worker count, outcome kinds and arbitrary initial DONE/FAILED/SKIPPED entries: no '
+                  'reachable state in which nothing can move while a started thread has not finished (covers lost wake-ups, dead workers, workers '
+                  'left blocked after the master returned or raised); thorough tier additionally proves every run ends within K steps.',
+             design='DESIGN.md sections 2.2, 4 C03'),
+ 'C04': dict(engine='threadsym', category='model_checking', note=TS_NOTE,
+             technique='inductive step over run histories: extracted thread automata + z3 bounded model checking (QF_BV) of ONE run from an arbitrary persisted environment satisfying the carry-over invariant; replay on real threads',
+             text='One run from EVERY persisted environment allowed by the documented carry-over (solver-chosen entries and clocks): at termination no '
+                  'DONE task has a DONE dependency that finished after it started or a failed hard dependency, and an up-to-date task is neither '
+                  're-executed nor modified. Composes over histories of any length.',
+             design='DESIGN.md sections 2.2, 4 C04'),
 }
 
 NOT_YET = {}
